@@ -1,6 +1,7 @@
 package rules
 
 import (
+	"go/types"
 	"strings"
 
 	"golang.org/x/tools/go/ssa"
@@ -22,27 +23,22 @@ func c05(r *core.Run) {
 
 	// R2 census: every native/visitor that copies values by calling Value.Transfer keeps its call sites
 	w := r.W
-	got := map[string]int{}
-	for _, fn := range w.SrcFuncs() {
-		if fn.Parent() != nil || fn.Pkg == nil {
-			continue
-		}
-		rel := core.RelPkg(fn.Pkg.Pkg.Path())
+	isTransferLike := func(o *types.Func) bool {
+		return o != nil && (strings.HasPrefix(o.Name(), "Transfer") || strings.HasPrefix(o.Name(), "transfer")) && o.Pkg() != nil && core.InMod(o.Pkg().Path())
+	}
+	got, deep := callerCounts(w, isTransferLike, func(o *types.Func) string { return o.Name() })
+	for k := range got {
+		rel := k[:strings.Index(k, ".")]
 		if rel != "interpreter" && rel != "stdlib" && rel != "bbq/vm" && rel != "runtime" {
-			continue
-		}
-		for _, c := range core.Calls(fn, true) {
-			if o := core.Callee(c); o != nil && (strings.HasPrefix(o.Name(), "Transfer") || strings.HasPrefix(o.Name(), "transfer")) && o.Pkg() != nil && core.InMod(o.Pkg().Path()) {
-				got[core.SSAKey(fn)+" -> "+o.Name()]++
-			}
+			delete(got, k)
 		}
 	}
 	genCounts(r, "c05_transfer_sites", got)
 	var pinned map[string]int
 	if r.Table("c05_transfer_sites", &pinned) {
 		for k, n := range pinned {
-			r.Check(got[k] >= n, "R2.census", k, 0, "value transfer (copy/move) call sites present ("+itoa(got[k])+")",
-				"a Value.Transfer call was removed from this function (pinned "+itoa(n)+", now "+itoa(got[k])+"): a value is passed on without being copied and aliases its source")
+			r.Check(deep[k] >= n, "R2.census", k, 0, "value transfer (copy/move) call sites present ("+itoa(deep[k])+")",
+				"a Value.Transfer call was removed from this function (pinned "+itoa(n)+", now "+itoa(deep[k])+"): a value is passed on without being copied and aliases its source")
 		}
 	}
 	r.Floor("R2.census", 50)
